@@ -1,5 +1,5 @@
 // Contract model of zlib for the symbolic build (linked instead of libz):
-//   compressBound(n) >= size of compress2 output; uncompress(compress2(x, level)) == x;
+//   compress2 needs a destination of compressBound(n) bytes (documented precondition); uncompress(compress2(x, level)) == x;
 //   truncated or corrupted streams are rejected; a too small destination gives Z_BUF_ERROR;
 //   levels outside -1..9 give Z_STREAM_ERROR.  Format: 0x78, level byte, payload, 32-bit sum.
 #include <cstring>
@@ -18,7 +18,9 @@ static unsigned vp_sum(const Bytef * p, uLong n) { unsigned s = 1; for (uLong i 
 int compress2(Bytef * dest, uLongf * destLen, const Bytef * src, uLong n, int level) {
     vp_zlib_calls++; vp_zlib_last_level = level;
     if (level < -1 || level > 9) return Z_STREAM_ERROR;
-    if (*destLen < n + 6) return Z_BUF_ERROR;
+    // zlib's documented precondition: "destLen must be at least the value returned by compressBound(sourceLen)" - with less,
+    // compress2 fails for data that deflate cannot shrink (one stored-block header per 16 KiB); the model insists on it
+    if (*destLen < compressBound(n)) return Z_BUF_ERROR;
     dest[0] = 0x78; dest[1] = static_cast<Bytef>(level < 0 ? 6 : level);
     if (n) memcpy(dest + 2, src, n);
     unsigned s = vp_sum(src, n);
